@@ -286,3 +286,94 @@ Proof.
   assert (tp_in_range (tp_upd_begin b clear s) e t = true) as -> by (unfold tp_in_range; lia).
   rewrite andb_false_r. reflexivity.
 Qed.
+
+(* ---------------- the second form of UpdateRegion: rounds that only merge ---------------- *)
+
+Lemma tp_update_region_ma_pinned fx upd prefer incs excs b e clear s :
+  tp_update_region_ma fx false upd prefer incs excs b e clear s = tp_update_region fx upd prefer incs excs b e clear s.
+Proof. unfold tp_update_region_ma, tp_update_region. destruct (negb clear && (e <? tp_ve_num s)); reflexivity. Qed.
+
+(* a call that is not the early return is the same in both forms *)
+Lemma tp_update_region_ma_effective fx ma upd prefer incs excs b e clear s :
+  (clear = false -> tp_ve_num s <= e) ->
+  tp_update_region_ma fx ma upd prefer incs excs b e clear s = tp_update_region fx upd prefer incs excs b e clear s.
+Proof.
+  intros H. unfold tp_update_region_ma.
+  assert ((negb clear && (e <? tp_ve_num s)) = false) as ->; [|reflexivity].
+  destruct clear; [reflexivity|]. specialize (H eq_refl). cbn. lia.
+Qed.
+
+(* what a merge cut off at valid_end = Some v does: valid_end stays, below v the referenced instants are united /
+   subtracted, from v on nothing changes *)
+Definition tp_below (v t : Z) (x y : bool) : bool := if t <? v then x else y.
+
+Lemma tp_merge_clip_spec include other : forall s v,
+  tp_ve s = Some v ->
+  tp_ve (tp_merge_clip true other include s) = Some v /\
+  forall t, tp_inside_segs (tp_segs (tp_merge_clip true other include s)) t =
+            tp_below v t (if include then tp_inside_segs (tp_segs s) t || tp_inside_segs other t
+                          else tp_inside_segs (tp_segs s) t && negb (tp_inside_segs other t))
+                         (tp_inside_segs (tp_segs s) t).
+Proof.
+  unfold tp_merge_clip. induction other as [|sg r IH]; intros s v Hv; cbn [fold_left].
+  - split; [exact Hv|]. intros t. unfold tp_below. cbn. destruct include, (t <? v); rewrite ?orb_false_r, ?andb_true_r; reflexivity.
+  - assert (tp_ve_num s = v) as Hn by (unfold tp_ve_num; rewrite Hv; reflexivity). rewrite Hn.
+    destruct (v <=? fst sg) eqn:C.
+    + destruct (IH s v Hv) as [H1 H2]. split; [exact H1|]. intros t. rewrite H2. unfold tp_below.
+      destruct (t <? v) eqn:Ct; [|reflexivity]. rewrite tp_inside_cons.
+      assert (tp_in_seg t sg = false) as -> by (unfold tp_in_seg; lia). reflexivity.
+    + set (e := if v <? snd sg then v else snd sg).
+      assert (e <= v) as He by (subst e; destruct (v <? snd sg) eqn:C2; lia).
+      destruct include.
+      * assert (tp_ve (tp_add (fst sg) e s) = Some v) as Hv'.
+        { cbn [tp_add tp_ve]. rewrite Hv. cbn [tp_widen_e]. assert ((v <? e) = false) as -> by lia. reflexivity. }
+        destruct (IH _ v Hv') as [H1 H2]. split; [exact H1|]. intros t. rewrite H2. unfold tp_below.
+        cbn [tp_add tp_segs]. rewrite tp_add_segs_inside_b, tp_inside_cons. unfold tp_in_range, tp_in_seg.
+        destruct (t <? v) eqn:Ct.
+        -- assert (((fst sg <=? t) && (t <? e)) = ((fst sg <=? t) && (t <? snd sg))) as ->.
+           { subst e. destruct (v <? snd sg) eqn:C2; lia. }
+           destruct (tp_inside_segs (tp_segs s) t), ((fst sg <=? t) && (t <? snd sg)), (tp_inside_segs r t); reflexivity.
+        -- assert (((fst sg <=? t) && (t <? e)) = false) as -> by lia. rewrite orb_false_r. reflexivity.
+      * assert (tp_ve (tp_remove true (fst sg) e s) = Some v) as Hv'.
+        { cbn [tp_remove tp_ve]. rewrite Hv. cbn [tp_widen_e]. assert ((v <? e) = false) as -> by lia. reflexivity. }
+        destruct (IH _ v Hv') as [H1 H2]. split; [exact H1|]. intros t. rewrite H2. unfold tp_below.
+        cbn [tp_remove tp_segs]. rewrite tp_remove_segs_inside_b, tp_inside_cons. unfold tp_in_range, tp_in_seg.
+        destruct (t <? v) eqn:Ct.
+        -- assert (((fst sg <=? t) && (t <? e)) = ((fst sg <=? t) && (t <? snd sg))) as ->.
+           { subst e. destruct (v <? snd sg) eqn:C2; lia. }
+           destruct (tp_inside_segs (tp_segs s) t), ((fst sg <=? t) && (t <? snd sg)), (tp_inside_segs r t); reflexivity.
+        -- assert (((fst sg <=? t) && (t <? e)) = false) as -> by lia. cbn [negb]. rewrite andb_true_r. reflexivity.
+Qed.
+
+Lemma tp_merge_clip_all_spec include others : forall s v,
+  tp_ve s = Some v ->
+  tp_ve (tp_merge_clip_all true others include s) = Some v /\
+  forall t, tp_inside_segs (tp_segs (tp_merge_clip_all true others include s)) t =
+            tp_below v t (if include then tp_inside_segs (tp_segs s) t || tp_inside_any others t
+                          else tp_inside_segs (tp_segs s) t && negb (tp_inside_any others t))
+                         (tp_inside_segs (tp_segs s) t).
+Proof.
+  unfold tp_merge_clip_all. induction others as [|o r IH]; intros s v Hv; cbn [fold_left].
+  - split; [exact Hv|]. intros t. unfold tp_below. cbn. destruct include, (t <? v); rewrite ?orb_false_r, ?andb_true_r; reflexivity.
+  - destruct (tp_merge_clip_spec include o s v Hv) as [Hv' Ho].
+    destruct (IH _ v Hv') as [H1 H2]. split; [exact H1|]. intros t. rewrite H2, Ho. unfold tp_below.
+    change (tp_inside_any (o :: r) t) with (tp_inside_segs o t || tp_inside_any r t). destruct (t <? v); [|reflexivity].
+    destruct include, (tp_inside_segs (tp_segs s) t), (tp_inside_segs o t), (tp_inside_any r t); reflexivity.
+Qed.
+
+(* a round that only merges: valid_end stays; below it the old answer plays the part of "own" in the statement *)
+Theorem tp_merge_only_spec prefer incs excs s v :
+  tp_ve s = Some v ->
+  tp_ve (tp_merge_only true prefer incs excs s) = Some v /\
+  forall t, tp_inside_segs (tp_segs (tp_merge_only true prefer incs excs s)) t =
+            tp_below v t (tp_region_spec prefer (tp_inside_segs (tp_segs s) t) (tp_inside_any incs t) (tp_inside_any excs t))
+                         (tp_inside_segs (tp_segs s) t).
+Proof.
+  intros Hv. unfold tp_merge_only, tp_region_spec. destruct prefer.
+  - destruct (tp_merge_clip_all_spec false excs s v Hv) as [Hv1 H1].
+    destruct (tp_merge_clip_all_spec true incs _ v Hv1) as [Hv2 H2].
+    split; [exact Hv2|]. intros t. cbn [negb] in *. rewrite H2, H1. unfold tp_below. destruct (t <? v); reflexivity.
+  - destruct (tp_merge_clip_all_spec true incs s v Hv) as [Hv1 H1].
+    destruct (tp_merge_clip_all_spec false excs _ v Hv1) as [Hv2 H2].
+    split; [exact Hv2|]. intros t. cbn [negb] in *. rewrite H2, H1. unfold tp_below. destruct (t <? v); reflexivity.
+Qed.
